@@ -1,5 +1,6 @@
 // C06 (Monte-Carlo, HLL) — bias, spread and interval coverage of hll_sketch (HLL_4/6/8: HIP estimate and
-// composite estimate) and of hll_union results (composite estimate, "unioned" error tables).
+// composite estimate) and of hll_union results (composite estimate, "unioned" error tables; inputs of the
+// union's lg_k, and - family hll_union_mixed_lgk - one input two steps finer than the union).
 // One case = one (family, lg_k, cardinality) cell; all its trials run in this case.
 #include "vf/core.hpp"
 #include "vf/c06_common.hpp"
@@ -12,8 +13,8 @@ using namespace c06;
 const char* property_id() { return "C06"; }
 unsigned case_timeout_s() { return 1800; }
 
-enum Fam { F_HLL4, F_HLL6, F_HLL8, F_HLL_UNION, F_N };
-static const char* FAM_NAME[] = {"hll4", "hll6", "hll8", "hll_union"};
+enum Fam { F_HLL4, F_HLL6, F_HLL8, F_HLL_UNION, F_HLL_UNION_MIXED, F_N };
+static const char* FAM_NAME[] = {"hll4", "hll6", "hll8", "hll_union", "hll_union_mixed_lgk"};
 static const target_hll_type TYPES[] = {HLL_4, HLL_6, HLL_8};
 
 static std::vector<Cell> build_cells(bool thorough) {
@@ -22,12 +23,12 @@ static std::vector<Cell> build_cells(bool thorough) {
   std::vector<Cfg> cfgs;
   if (!thorough) cfgs = {{4, 300, NMULTS - 1}, {6, 300, NMULTS - 1}, {9, 300, NMULTS - 1}, {12, 300, NMULTS - 1}};
   else cfgs = {{4, 3000, NMULTS - 1}, {5, 3000, NMULTS - 1}, {6, 3000, NMULTS - 1}, {7, 3000, NMULTS - 1}, {8, 3000, NMULTS - 1}, {9, 3000, NMULTS - 1},
-               {10, 2000, NMULTS - 1}, {11, 1500, NMULTS - 1}, {12, 1000, NMULTS - 2}, {13, 600, NMULTS - 3}, {14, 400, NMULTS - 4}};
+               {10, 3000, NMULTS - 1}, {11, 2000, NMULTS - 1}, {12, 1500, NMULTS - 1}, {13, 1000, NMULTS - 2}, {14, 600, NMULTS - 3}};
   for (int f = 0; f < F_N; ++f)
     for (auto& c : cfgs)
       for (int mi = 0; mi <= c.max_mi; ++mi) {
         Cell x; x.fam = f; x.lg_k = c.lg_k; x.mi = mi; x.trials = c.trials; x.n = cardinality(c.lg_k, mi);
-        x.cost = static_cast<double>(x.n) * x.trials * (f == F_HLL_UNION ? 1.3 : 1.0) + 3000.0 * x.trials;
+        x.cost = static_cast<double>(x.n) * x.trials * (f >= F_HLL_UNION ? 1.3 : 1.0) + 3000.0 * x.trials;
         cells.push_back(x);
       }
   order_cells(cells);
@@ -68,38 +69,39 @@ void run_case(uint64_t idx, Rng& r) {
     const uint64_t kb = base + (static_cast<uint64_t>(t) << 32);
     const std::string ctx = "trial=" + std::to_string(t);
     auto key = [&](uint64_t i) { return bij(kb + i); };
-    if (cell.fam != F_HLL_UNION) {
+    if (cell.fam < F_HLL_UNION) {
       hll_sketch s(cell.lg_k, TYPES[cell.fam]);
       for (uint64_t i = 0; i < n; ++i) s.update(key(i));
       tr.push_back(observe(s, n, fam, ctx));
     } else {
       // A gets keys [0, 0.6n), B gets keys [0.4n, n): 20% overlap; target types rotate with the trial
       const uint64_t a_end = n - n * 2 / 5, b_begin = n * 2 / 5;
-      hll_sketch a(cell.lg_k, TYPES[t % 3]), b(cell.lg_k, TYPES[(t / 3) % 3]);
+      // mixed family: A is two steps finer than the union (lg_max_k = lg_k) and B; the feeding order alternates
+      const bool mixed = cell.fam == F_HLL_UNION_MIXED;
+      hll_sketch a(static_cast<uint8_t>(cell.lg_k + (mixed ? 2 : 0)), TYPES[t % 3]), b(cell.lg_k, TYPES[(t / 3) % 3]);
       for (uint64_t i = 0; i < a_end; ++i) a.update(key(i));
       for (uint64_t i = b_begin; i < n; ++i) b.update(key(i));
       hll_union u(cell.lg_k);
-      u.update(a);
-      u.update(b);
+      if (mixed && (t & 1)) { u.update(b); u.update(a); } else { u.update(a); u.update(b); }
       const hll_sketch res = u.get_result(TYPES[(t / 9) % 3]);
       tr.push_back(observe(res, n, fam, ctx));
       // the union object itself must report what its result reports
       const Chain uc = read_chain(u);
-      VF_CHECK(uc.est == tr.back().c.est && uc.lb[1] == tr.back().c.lb[1] && uc.ub[3] == tr.back().c.ub[3], "hll_union|union-object-vs-result|estimate-or-bounds-differ",
+      VF_CHECK(uc.est == tr.back().c.est && uc.lb[1] == tr.back().c.lb[1] && uc.ub[3] == tr.back().c.ub[3], fam + "|union-object-vs-result|estimate-or-bounds-differ",
                ctx + " union: " + uc.to_string() + " result: " + tr.back().c.to_string());
       if (res.get_current_mode() == HLL && !res.is_out_of_order_flag()) any_ooo_false_union = true;
     }
   }
   bool all_exact = true;
   for (auto& t : tr) all_exact = all_exact && t.exact_class;
-  const bool unioned = cell.fam == F_HLL_UNION && !any_ooo_false_union;
+  const bool unioned = cell.fam >= F_HLL_UNION && !any_ooo_false_union;
   // published relative standard error: hll_sketch::get_rel_err at one standard deviation (mean of both sides)
   const double rse = 0.5 * (hll_sketch::get_rel_err(false, unioned, cell.lg_k, 1) - hll_sketch::get_rel_err(true, unioned, cell.lg_k, 1));
   const std::string ctx = "family=" + fam + " lg_k=" + std::to_string(cell.lg_k) + " n=" + std::to_string(n);
   // exact-class cells (every trial in LIST/SET mode): the error is a rare collision event, so the per-trial
   // small-range window replaces the bias/spread statistics; coverage is still checked.
   const CellResult R = check_cell(tr, n, rse, fam, ctx, !all_exact, true);
-  if (!all_exact && cell.fam != F_HLL_UNION) {
+  if (!all_exact && cell.fam < F_HLL_UNION) {
     // composite estimator of a plain sketch: bias/spread against the published non-HIP error
     std::vector<Trial> ct = tr;
     for (auto& t : ct) t.c.est = t.aux;
